@@ -37,6 +37,8 @@ RULE = (
     "structure within K deviations (leaf substitution from the full alphabet, insert/delete at any level, "
     "wrap/unwrap of any node, reversal of any list) of every base shape of the nested types; x all 9 type tags. "
     "Type-tag cases (explicit same/other/unknown/unhashable tag, missing tag, missing coordinates, mode misuse) on a pool. "
+    "Environment axis: every scalar / flat list up to length 4 and every example structure with one leaf substituted, one list reversed or one "
+    "element dropped is judged once more in a child interpreter started with -O (case key env='python -O'). "
     "A case is non-trivial when the structure has the nesting depth the tagged type declares with numeric leaves, "
     "i.e. the type's own validator (not the static type check) decides; distinct = distinct (tag, JSON text of the structure)."
 )
@@ -676,7 +678,47 @@ def blocks(tier):
         out += [{"space": space, "tier": tier, "shard": [i, nb[space]]} for i in range(nb[space])]
     out.append({"space": "precision", "tier": tier, "shard": [0, 1]})
     out.append({"space": "constant", "tier": tier, "shard": [0, 1]})
+    out += [{"space": "optimized", "tier": tier, "shard": [i, 4]} for i in range(4)]
     return out
+
+
+# ------------------------------------------------------------------ environment axis: the same validators under python -O
+ENV_O = "python -O"
+
+
+def optimized_structs():
+    """Structures re-run in a child interpreter started with -O (assert statements compiled away): every scalar and flat list up to
+    length 4, and every example structure with one leaf replaced by each alphabet value, one list reversed, or one element dropped."""
+    for v in ALPHA_F:
+        yield v
+    for n in range(0, 5):
+        for t in itertools.product(ALPHA_F, repeat=n):
+            yield list(t)
+    for t in TYPES:
+        base = EXAMPLES[t]
+        if not isinstance(base, list) or not any(isinstance(x, list) for x in base):
+            continue
+        yield base
+        for op in struct_ops(base):
+            if op[0] in ("r", "d"):
+                yield apply_op(base, op)
+        for path in _all_leaf_paths(base):
+            for v in ALPHA_F:
+                yield _set(base, path, lambda _x, v=v: v)
+
+
+def _all_leaf_paths(x, path=()):
+    if isinstance(x, list):
+        for i, y in enumerate(x):
+            yield from _all_leaf_paths(y, path + (i,))
+    else:
+        yield list(path)
+
+
+def child_case(case):
+    c = case["c"]
+    ctext = json.dumps(c)
+    return [run_one(c, ctext, tag, {"sp": "struct", "c": c, "tag": tag}) for tag in TYPES]
 
 
 def constant_cases():
@@ -731,6 +773,11 @@ def run_block(block, rec):
     elif sp == "constant":
         for case in constant_cases():
             rec.add(run_constant_case(case))
+    elif sp == "optimized":
+        from mc import child
+        cases = [{"c": c} for c in itertools.islice(optimized_structs(), i, None, n)]
+        for o in child.run_in_child("c03", ENV_O, cases):
+            rec.add(o)
     elif sp == "tags":
         for case in itertools.islice(tag_cases(tier), i, None, n):
             rec.add(run_tag_case(case))
@@ -741,6 +788,10 @@ def run_block(block, rec):
 
 
 def replay_case(case):
+    if case.get("env"):
+        from mc import child
+        outs = child.run_in_child("c03", case["env"], [{"c": case["c"]}])
+        return next(o for o in outs if o.case["tag"] == case["tag"])
     if case["sp"] == "struct":
         c = case["c"]
         return run_one(c, json.dumps(c), case["tag"], case)
